@@ -389,7 +389,7 @@ MUTANTS = [
     ("c14_time_seed", ["C14"], GN,
      "        if seed is not None:\n            np.random.seed(seed)",
      "        if seed is not None:\n            import time\n            np.random.seed((seed + time.time_ns()) % (2 ** 31) if seed % 5 == 3 else seed)"),
-    ("c14_dynamics_private_rng", ["C14", "C07"], NW,
+    ("c14_dynamics_private_rng", ["C14"], NW,
      "        elif np.random.rand() > action.prob:",
      "        elif np.random.default_rng().random() > action.prob:"),
     ("c14_benchmark_seed_reused", ["C14"], SI,
